@@ -38,6 +38,8 @@ pub mod dupcast;
 pub mod vgenc;
 #[path = "callargs.rs"]
 pub mod callargs;
+#[path = "vgenn.rs"]
+pub mod vgenn;
 
 use crate::compile_util::*;
 use crate::util::*;
@@ -348,6 +350,10 @@ pub fn run_program(src: &str, only: Option<(&str, &[Vec<VV>])>, nvec: usize, rng
             (encl, if lost { format!("class:{} ## {}", C_LOST_DEFAULT, msg) } else { msg })
         })
         .collect();
+    // scope oracle (vgenn.rs; independent of both evaluators): inside a function no parameter / local declaration has the
+    // name of a parameter that carries a global
+    let global_names: Vec<String> = p.globals.iter().map(|g| g.name.clone()).collect();
+    let scope: Vec<(Option<String>, String)> = module_sx.as_ref().map(|items| vgenn::scope_failures(items, &global_names)).unwrap_or_default();
     let irv = if ir_unsupported.is_none() { IrV::new(&p.prog) } else { None };
     let ir_init = irv.as_ref().and_then(|ev| ev.init_globals());
     let fmod_builtin = prog_text.contains("(intr Fmod ");
@@ -516,6 +522,23 @@ pub fn run_program(src: &str, only: Option<(&str, &[Vec<VV>])>, nvec: usize, rng
                 fails.push(msg.clone());
             }
         }
+        let mut same_leaf = false;
+        for (encl, msg) in &scope {
+            if encl.as_deref().map(|e| e == emitted_name).unwrap_or(true) {
+                hist.add(if msg.starts_with("class:") { "v:scope:same-leaf" } else { "v:scope:fail" });
+                same_leaf |= msg.starts_with("class:");
+                fails.push(msg.clone());
+            }
+        }
+        if same_leaf {
+            // two parameters of one name: which of them an identifier of the body means is not defined, so a difference of the
+            // value comparison on this function belongs to the same described class
+            for f in fails.iter_mut() {
+                if !f.starts_with("class:") && f.contains(" args [") {
+                    *f = format!("class:{} ## {}", vgenn::C_SAME_LEAF, f);
+                }
+            }
+        }
         // text leg: the emitted TEXT of this function denotes the tree that was just judged
         if let Some(t) = &text_leg {
             if let Some(tf) = t.fails_for(emitted_name).into_iter().next() {
@@ -649,6 +672,9 @@ pub fn run_request(line: &str, out: &mut Out, hist: &mut Hist) {
 /// the k-th program of the vector stream for a seed: C01's generator, matrices only in the forms the Metal backend accepts
 pub fn vprogram(seed: u64, k: u64) -> String {
     let mut rng = Rng::new(seed.wrapping_mul(0x2545_F491_4F6C_DD1D) ^ k.wrapping_mul(0x9E37_79B9_7F4A_7C15) ^ 0x6d766563);
+    if k >= NS_BASE {
+        return vgenn::ns_program(k - NS_BASE, &mut rng).0;
+    }
     if k >= CALL_BASE {
         return vgenc::call_program(k - CALL_BASE, &mut rng).0;
     }
@@ -669,14 +695,20 @@ pub fn vprogram(seed: u64, k: u64) -> String {
 pub const DUP_BASE: u64 = 1_000_000;
 /// programs from `CALL_BASE` on: calls that leave out default arguments of callees that use threaded globals (`vgenc.rs`)
 pub const CALL_BASE: u64 = 2_000_000;
+/// programs from `NS_BASE` on: threaded globals inside namespaces next to locals of the same leaf name (`vgenn.rs`)
+pub const NS_BASE: u64 = 3_000_000;
 
 pub fn run_stream(args: &Args, out: &mut Out, hist: &mut Hist) {
     let n = if args.thorough() { 4000 } else { 300 };
     let nd = vgend::enumerated_len() + if args.thorough() { 1500 } else { 100 };
     let nc = vgenc::enumerated_len() + if args.thorough() { 1200 } else { 60 };
-    for k in (0..n).chain(DUP_BASE..DUP_BASE + nd).chain(CALL_BASE..CALL_BASE + nc) {
+    let nn = vgenn::enumerated_len() + if args.thorough() { 600 } else { 40 };
+    for k in (0..n).chain(DUP_BASE..DUP_BASE + nd).chain(CALL_BASE..CALL_BASE + nc).chain(NS_BASE..NS_BASE + nn) {
         let src = vprogram(args.seed, k);
-        if k >= CALL_BASE {
+        if k >= NS_BASE {
+            let mut trng = Rng::new(args.seed.wrapping_mul(0x2545_F491_4F6C_DD1D) ^ k.wrapping_mul(0x9E37_79B9_7F4A_7C15) ^ 0x6d766563);
+            hist.add(&vgenn::ns_program(k - NS_BASE, &mut trng).1);
+        } else if k >= CALL_BASE {
             let mut trng = Rng::new(args.seed.wrapping_mul(0x2545_F491_4F6C_DD1D) ^ k.wrapping_mul(0x9E37_79B9_7F4A_7C15) ^ 0x6d766563);
             hist.add(&vgenc::call_program(k - CALL_BASE, &mut trng).1);
             // the argument list of every user call against the Lean model of generate_user_call
